@@ -60,6 +60,9 @@ TEXTS.update({
  "C10": _t("rapid property test; round trip MPD kid -> init kid -> licence/CPIX key -> decrypt -> clear segment (differential with the DRM-free response)",
            EXPL_NOTE + "ClearKey cenc/cbcs and both CPIX packages, video and re-segmented audio, whole and chunked delivery, bundled and generated assets; a pre-encrypted asset built from livesim2's own output must be refused.",
            TRUST + " mp4ff decrypts (third-party, separate from the encrypt call).", "DESIGN.md §7 C10"),
+ "C09": _t("rapid property test; differential with the whole-segment response; recording ResponseWriter with one-sided timing oracle; real-time paced cases on sub-second generated assets",
+           EXPL_NOTE + "Hundreds of unpaced and dozens of real-time paced responses per run, video and audio, with and without ClearKey encryption.",
+           TRUST + " One-sided timing: lateness is never a failure (the server's late trailing chunk is noted in DESIGN, not asserted).", "DESIGN.md §7 C09"),
 })
 
 _claimed = set(TEXTS)
